@@ -478,7 +478,7 @@ def _totality_chunk(arg: tuple) -> tuple[int, list[tuple[str, str, str]]]:
     prog = Program(overlay=overlay or None)
     it = Interp(prog, max_depth=40, max_steps=50_000)
     it.stubs["_griffe.docstrings.utils.parse_docstring_annotation"] = lambda _i, ann, _ds, **_k: ann
-    it.stubs["_griffe.docstrings.utils.docstring_warning"] = lambda _i, *_a, **_k: None
+    # (docstring_warning is evaluated too: every parser's error path goes through it)
     dcls = prog.cls("_griffe.models.Docstring")
     fn_par = Obj(prog.cls("_griffe.models.Function"), {"parameters": {"x": Obj(None, {"name": "x", "annotation": "T", "default": "1", "__closed__": True})}, "returns": "Ret[A, B]",
                                                         "labels": set(), "name": "f", "path": "m.f", "__closed__": True}, label="function")
@@ -516,10 +516,11 @@ def _totality_chunk(arg: tuple) -> tuple[int, list[tuple[str, str, str]]]:
                     continue
                 if "__init__" in pname and not opts.get("ignore_init_summary"):
                     continue  # these two parents only matter to the option that looks at them
-                ds = Obj(dcls, {"lines": list(lines), "value": value, "parent": par, "lineno": 1, "endlineno": len(lines)}, label="docstring")
+                # a docstring built by hand (no parent) has no line number either
+                ds = Obj(dcls, {"lines": list(lines), "value": value, "parent": par, "lineno": None if par is None else 1, "endlineno": None if par is None else len(lines)}, label="docstring")
                 it.steps = 0
                 try:
-                    out = it.call(fn, ds, warn_unknown_params=False, **opts)
+                    out = it.call(fn, ds, warn_unknown_params=par is not None, **opts)
                     problem = None if isinstance(out, list) else f"returns {type(out).__name__}"
                     if problem is None and (ds.attrs["lines"] != lines or ds.attrs["value"] != value):
                         problem = "modifies the docstring"
